@@ -13,7 +13,9 @@ Driver for stream `blocks` (C06): one op per line, one observation per line.
      -> ok bh=<n> hh=<n> top=<hash of the last recorded header> | err:<class> bh=<n> hh=<n> db=same
   chain nvals= h= inc= mbsf= fpb= mvg= mtb= p2p= rsv= nta= committee= oracle= notary= attrfee=<typ>:<fee>,.. blocked=<name>,..|-
                                              -> ok                  (what the stand-alone tx verification reads)
-  rec <hash> tx | rec <hash> stub <idx> <name>@<idx>+...   -> ok   (what is stored on chain under a hash)
+  rec <hash> tx | rec <hash> hist <idx>:<name>+<name>,<idx>:...   -> ok   (what is stored on chain under a hash:
+                                             a transaction, or the conflicting transactions - block index and
+                                             signers, in storing order - from which the model builds the record)
   verifytx <tx>                              -> ok | err:<class>    (VerifyTx: off-chain entry, empty pool)
   relevant conf=<b> <tx>                     -> kept | dropped      (did the pooled tx survive the tip block: RemoveStale / IsTxStillRelevant)
   addblock idx= sre= hash= prev= ts= nc= psr= wit= prim= mroot= newroot= txs=<tx>,..|- txh=<32-byte tx hash, hex>,..|-
@@ -270,6 +272,12 @@ def doChain (st : DState) (ws : List String) : Option DState := do
 def doRec (st : DState) (ws : List String) : Option DState :=
   match ws with
   | [h, "tx"] => do pure { st with recs := ((← hexNat h), Rec.tx) :: st.recs }
+  | [h, "hist", es] => do
+    -- the conflicting transactions stored for this hash, in order: the model builds the record itself
+    let hist ← (es.splitOn ",").mapM (fun t => match t.splitOn ":" with
+      | [i, sg] => do pure ((← i.toNat?), (sg.splitOn "+").map nameNat)
+      | _ => none)
+    pure { st with recs := ((← hexNat h), recordOf hist) :: st.recs }
   | [h, "stub", idx, sg] => do
     let sgs ← (sg.splitOn "+").mapM (fun t => match t.splitOn "@" with
       | [a, i] => do pure (nameNat a, (← i.toNat?))
